@@ -41,11 +41,22 @@ ClaimsOk(e) == /\ SeqToSet(e.ids) = ClaimsAbout(Upto(e.n), e.pn, e.attr, e.signe
                /\ Len(e.ids) = Cardinality(SeqToSet(e.ids))
                /\ e.signer # 0 => e.dated          \* one signer's rows come back in date order
 
-Dev == {"IgnoreClaimDeletion"}
 Expected(e) == CASE e.ev = "q" -> AttrValues(Upto(e.n), e.pn, e.attr, T3(e.t), e.signer)
                  [] e.ev = "deleted" -> DeletedSet(Upto(e.n))
                  [] e.ev = "mod" -> ModTime(Upto(e.n), e.pn)
                  [] e.ev = "claims" -> ClaimsAbout(Upto(e.n), e.pn, e.attr, e.signer)
+
+(* class of a rejected reply: which listed deviation (if any) explains it, or what kind of difference it is *)
+Class(e) ==
+   CASE e.ev = "q" -> IF QOk(e, {"IgnoreClaimDeletion"}) THEN "deleted-claim-applied"
+                      ELSE IF Asked(e, "absent") THEN "permanode-absent" ELSE "other-values"
+     [] e.ev = "mod" -> IF ModOk(e, {"ModTimeCountsPermanodeDelete"}) THEN "permanode-delete-date-counted"
+                        ELSE IF ModOk(e, {"IgnoreClaimDeletion"}) THEN "deleted-claim-date-counted" ELSE "other-time"
+     [] e.ev = "deleted" -> IF DeletedSet(Upto(e.n)) \ SeqToSet(e.ids) # {} THEN "deleted-reported-live" ELSE "live-reported-deleted"
+     [] e.ev = "claims" -> LET exp == ClaimsAbout(Upto(e.n), e.pn, e.attr, e.signer) IN
+                           IF SeqToSet(e.ids) \ exp # {} THEN
+                              (IF \E x \in SeqToSet(e.ids) \ exp : Deleted(Upto(e.n), x) THEN "deleted-claim-listed" ELSE "foreign-claim-listed")
+                           ELSE IF exp \ SeqToSet(e.ids) # {} THEN "live-claim-missing" ELSE "order-or-duplicate"
 
 TInit == l = 1 /\ world = {}
 
@@ -59,10 +70,7 @@ TLine == /\ l <= Len(Trace) /\ Ev.ev # "world"
                         [] Ev.ev = "deleted" -> DeletedOk(Ev)
                         [] Ev.ev = "mod" -> ModOk(Ev, {})
                         [] Ev.ev = "claims" -> ClaimsOk(Ev)
-                dv == CASE Ev.ev = "q" -> QOk(Ev, Dev)
-                        [] Ev.ev = "mod" -> ModOk(Ev, Dev)
-                        [] OTHER -> FALSE
-            IN ok \/ PrintT(<<"VIOL", l, Ev.ev, Ev.path, IF dv THEN "dev:IgnoreClaimDeletion" ELSE "dev:none", Expected(Ev)>>)
+            IN ok \/ PrintT(<<"VIOL", l, Ev.ev, Ev.path, Class(Ev), Expected(Ev)>>)
 
 TNext == TWorld \/ TLine
 TSpec == TInit /\ [][TNext]_tvars
